@@ -82,41 +82,39 @@ def repair_num(x):
     return exact(format(Decimal(x).quantize(Decimal("0.000001")), "f"))
 
 
-IDENT = re.compile(rb"[A-Za-z_][A-Za-z0-9_]*\Z")
-
-
-def repair_key(k):
-    return re.sub(rb"[\n\r\f]", b"_", k)
-
-
-HAZ = {"F-C17a": "num", "F-C17b": "nul", "F-C17c": "mlkey", "F-C17d": "tmpl"}
+# hazards of the findings that are still open; F-C17c (917b518), F-C17d (d511a4f) and F-C17e (86ebd6a) are fixed: nothing is repaired or
+# suppressed for them, a recurrence is a plain VIOLATION
+HAZ = {"F-C17a": "num", "F-C17b": "nul"}
 
 
 class C17(StdCheck):
     prop = "C17"
     required_theorems = ["string_emit_lex_roundtrip", "string_nul_counterexample", "number_emit_denotes_round6",
-                         "faithful_number_partial", "number_precision_counterexample", "emit_parse_roundtrip_witness",
-                         "key_injection_counterexample", "template_injection_counterexample",
+                         "faithful_number_partial", "number_precision_counterexample",
+                         "emit_parse_roundtrip", "no_injection", "create_config_roundtrip", "faithful_attributes_partial",
+                         "emit_parse_roundtrip_witness", "lexer_keyword_key_rejected", "bare_key_is_identifier_witness",
                          "create_all_or_nothing_partial", "activate_exception_counterexample",
                          "delete_removes_object_and_file", "refuse_non_api", "cascade_only_when_asked", "unique_names"]
-    technique = ("Lean 4 proof over a hand-written model of ConfigWriter, the string-literal lexer and the create/delete state machine "
-                 "(round trip by induction for string literals, invariant by induction over operation sequences, kernel-evaluated "
-                 "counterexamples for the recorded defects); correspondence by differential execution of the real "
-                 "CreateObjectConfig/CreateObject/DeleteObject in a scratch data directory, byte-exact comparison of the generated "
-                 "configuration text with the model's, and the model's parser reading the real text")
+    technique = ("Lean 4 proof over a hand-written model of ConfigWriter, the config lexer/parser fragment and the create/delete state machine "
+                 "(emit/parse round trip by mutual induction over the value tree and the statement list, invariant by induction over "
+                 "operation sequences, kernel-evaluated counterexamples for the open defects); correspondence by differential execution of "
+                 "the real CreateObjectConfig/CreateObject/DeleteObject (directly and through PUT/DELETE /v1/objects via "
+                 "HttpHandler::ProcessRequest) in a scratch data directory, byte-exact comparison of the generated configuration text with "
+                 "the model's, and the model's parser reading the real text")
     level_text = ("Machine-checked: every NUL-free byte string survives EmitString -> string-literal lexer unchanged with the literal ending "
                   "exactly at the writer's closing quote; numbers are written rounded to six fractional digits (exact iff <= 6 digits); create is "
                   "all-or-nothing for every injected fault except an exception out of ActivateItems; delete removes object, item and file, "
                   "refuses non-API objects, removes nothing else without cascade; names stay unique over every create/delete sequence. "
-                  "The general parse(emit(item)) theorem is NOT proved (a kernel-evaluated witness only); structure preservation is instead "
-                  "checked on every generated text by the model's parser (spec clause structure_preserved). The same specification predicate "
+                  "emit_parse_roundtrip/no_injection: for every type, name, template list and attribute dictionary (NUL-free strings, nested keys "
+                  "other than `in`/`debugger`) the generated text parses back to exactly one object statement assigning exactly the supplied paths; "
+                  "the same structure check runs on every real generated text (spec clause structure_preserved). The same specification predicate "
                   "is evaluated on the implementation's own observations (objects with content hashes, items, files, global namespace hash).")
     level_note = ("Trusted: Lean kernel (+ propext, Classical.choice, Quot.sound), harness/driver, libc printf/strtod (the driver recomputes "
                   "nearest-binary64), the outcome of compile/commit/activate is an oracle input (fault injection in the model). Known findings "
                   "F-C17a..e are reported as KNOWN-FINDING by a classifier that repairs the recorded hazard in the minimised witness and "
                   "re-runs it: only failures that vanish after the repair are attributed to the finding.")
     trusted_base = [
-        "modelled, not verified: type validation, template import, apply rules, cluster sync of created objects; HTTP handlers (CreateObjectHandler/DeleteObjectHandler) are not driven",
+        "modelled, not verified: type validation, template import, apply rules, cluster sync of created objects; the HTTP handlers are driven (about 12 % of the operations) but not modelled beyond the calls they make",
         "parameters: glibc printf(\"%.6f\") = exact round-half-even, strtod = nearest binary64 (recomputed in the driver)",
         "the model's parser accepts exactly the writer's fragment; any other token makes it reject (counted as structure_preserved failure)",
     ]
@@ -135,12 +133,11 @@ class C17(StdCheck):
     def _repaired(self, line):
         """the create line with every recorded hazard repaired; returns (line, set of hazards that were present)"""
         w = line.split(" | ")[0].split()
-        if len(w) != 6 or w[0] != "create":
+        if len(w) not in (6, 7) or w[0] != "create":
             return line.split(" | ")[0], set()
         found = set()
         tm, _ = dec_v(w[4])
         at, _ = dec_v(w[5])
-        name = b"" if w[2] == "-" else bytes.fromhex(w[2])
 
         def fs(b):
             if b"\0" in b:
@@ -154,24 +151,11 @@ class C17(StdCheck):
             return r
 
         def fk(k):
-            k2 = fs(k)
-            if re.search(rb"[\n\r\f]", k2):
-                found.add("mlkey")
-            return repair_key(k2)
+            return fs(k)
 
         at2 = walk(at, fs, fn, fk)
         at2 = ("d", [(fs(k), v) for k, v in at2[1]])
-        good_t = []
-        for t in tm[1]:
-            if isinstance(t, bytes) and re.search(rb'["\\\n\0]', t):
-                found.add("tmpl")
-            else:
-                good_t.append(t)
-        if w[1] in ("Notification", "Dependency", "Comment", "Downtime", "Service", "ScheduledDowntime") and \
-                b"" in name.split(b"!")[1:-1]:
-            found.add("name")
-        if any(k == b"__name" for k, _ in at2[1]):
-            found.add("name")
+        good_t = [fs(t) if isinstance(t, bytes) else t for t in tm[1]]
         w[4] = enc_v(("a", good_t))
         w[5] = enc_v(at2)
         return " ".join(w), found
@@ -184,10 +168,6 @@ class C17(StdCheck):
             return False
         base = m.group(1)
         lines = [l for l in finding.case_lines if l.split(" ")[0] in ("C", "create", "delete")]
-        if entry["id"] == "F-C17e":
-            # success reported although the object is registered under another name than the requested one
-            last = [l for l in lines if l.startswith("create ")][-1:]
-            return base == "success_without_object" and bool(last) and "name" in self._repaired(last[0])[1]
         haz = HAZ.get(entry["id"])
         if not haz:
             return False
